@@ -171,6 +171,7 @@ class Run:
             vc.step(op[1])
         elif k == "failext":
             vc.procs[op[1]].fail_ext = op[2]
+            vc.procs[op[1]].fail_ext_cmd = op[3] if len(op) > 3 else None
         elif k == "failwrite":
             vc.procs[op[1]].fail_write = op[2]
             vc.step(op[1])
@@ -305,6 +306,9 @@ class Run:
     def maybe_extra(self):
         """mode-specific user commands / faults injected with small probability at each op"""
         vc, rng, mode = self.vc, self.rng, self.mode
+        # user commands are issued against an existing submission: only after submit-jobs has returned
+        if vc.procs and vc.procs[1].state == "ready" and mode in ("busy", "cancel"):
+            return None
         if mode == "busy" and rng.random() < .04:
             return ["spawn", rng.choice(["trysubmit", "trysubmit", "showstatus"])]
         if mode == "busy" and rng.random() < .02:
@@ -340,7 +344,7 @@ class Run:
                 if kind == "failext":
                     return ["failext", p.pid, rng.choice([1, 1, 2, 7])]
                 if kind == "squeue7":
-                    return ["failext", p.pid, 7]
+                    return ["failext", p.pid, 7, "squeue"]
                 if kind == "failwrite":
                     return ["failwrite", p.pid, rng.randrange(0, 9)]
                 if kind == "locktimeout":
